@@ -18,12 +18,17 @@ import (
 type VerifNode struct {
 	PPos, CPos   token.Position // zero value = no position
 	PRepr, CRepr string
+	// Site is the complete (never printed) position of the node's site; zero value = none.
+	Site token.Position
 }
 
 // VerifConflict is a synthetic conflict.
 type VerifConflict struct {
 	Pos         token.Position
 	Nil, Nonnil []VerifNode
+	// Src is the declaration position of the object a single-assertion conflict reads nil from;
+	// zero value = none.
+	Src token.Position
 }
 
 // VerifDiag is one produced diagnostic.
@@ -47,7 +52,9 @@ func verifNode(n VerifNode) node {
 	if n.CPos.IsValid() {
 		c = annotation.LocatedRepr{Contained: verifStr(n.CRepr), Location: n.CPos}
 	}
-	return newNode(p, c)
+	nd := newNode(p, c)
+	nd.sitePosition = n.Site
+	return nd
 }
 
 // VerifDiagnostics runs Engine.Diagnostics on the given conflicts and nolint ranges.
@@ -80,7 +87,7 @@ func VerifDiagnostics(cs []VerifConflict, ranges []Range, grouping, excludeTestF
 		for _, n := range c.Nonnil {
 			flow.nonnilPath = append(flow.nonnilPath, verifNode(n))
 		}
-		e.conflicts = append(e.conflicts, conflict{position: c.Pos, flow: flow})
+		e.conflicts = append(e.conflicts, conflict{position: c.Pos, flow: flow, sourcePosition: c.Src})
 	}
 	for _, d := range e.Diagnostics(grouping) {
 		out = append(out, VerifDiag{Pos: fset.Position(d.Pos), Valid: d.Pos.IsValid(), Message: d.Message})
